@@ -130,6 +130,7 @@ def universes(tier, purpose="opt"):
              dict(n=3, k=2, T=6, labels=["x"], segs=LONG[:4], sym=True),
              dict(n=2, k=2, T=3, labels=[None]),
              dict(n=2, k=2, T=2, labels=["x", None]),
+             dict(n=2, k=2, T=2, labels=["", "x"]),  # the empty string is a legal label, distinct from "no label"
              dict(n=3, k=2, T=2, labels=XY, sym=True),
              dict(n=3, k=1, T=2, labels=["x", None]),
              dict(n=4, k=1, T=2, labels=XY),
